@@ -63,6 +63,9 @@ class Gen(object):
             return ('ptr', self.rng.choice(['gpointer', 'utf8', 'structptr']))
         if r < 0.58 and self.rng.random() < 0.5:
             return ('foreign', self.rng.choice(['Mid', 'Inner', 'Wide', 'Mid']))
+        if r < 0.60:
+            # a record that is a typedef to a pointer: marked disguised="1" (the older spelling) or pointer="1"
+            return ('handle', self.rng.choice(['HandleD', 'HandleP', 'HandleDP']))
         if r < 0.63 and self.enums:
             return ('enum', self.rng.randrange(len(self.enums)))
         if r < 0.75:
@@ -126,6 +129,8 @@ class Gen(object):
             return '<type name="T.D%d" c:type="TD%d"/>' % (t[1], t[1])
         if k == 'foreign':
             return '<type name="B.%s" c:type="B%s"/>' % (t[1], t[1])
+        if k == 'handle':
+            return '<type name="T.%s" c:type="T%s"/>' % (t[1], t[1])
         if k == 'void':
             return '<type name="none" c:type="void"/>'
         raise ValueError(t)
@@ -136,6 +141,8 @@ class Gen(object):
                '<include name="B" version="1.0"/>',
                '<namespace name="T" version="1.0" shared-library="" c:identifier-prefixes="T" c:symbol-prefixes="t">',
                '<record name="Opaque" c:type="TOpaque"/>',
+               '<record name="HandleD" c:type="THandleD" disguised="1"/>', '<record name="HandleP" c:type="THandleP" pointer="1"/>',
+               '<record name="HandleDP" c:type="THandleDP" disguised="1" pointer="1"/>',
                '<record name="Inner" c:type="TInner"><field name="x" writable="1"><type name="gdouble" c:type="gdouble"/></field>'
                '<field name="y" writable="1"><type name="gdouble" c:type="gdouble"/></field></record>']
         for i, vs in enumerate(self.enums):
@@ -170,12 +177,15 @@ class Gen(object):
             return 'TD%d %s' % (t[1], name)
         if k == 'foreign':
             return 'B%s %s' % (t[1], name)
+        if k == 'handle':
+            return 'T%s %s' % (t[1], name)
         if k == 'callback':
             return 'void (*%s) (void)' % name
         raise ValueError(t)
 
     def c_program(self):
-        out = ['#include <stdio.h>', '#include <stddef.h>', B_C]
+        out = ['#include <stdio.h>', '#include <stddef.h>', B_C,
+               'typedef struct _THD *THandleD; typedef struct _THP *THandleP; typedef struct _THDP *THandleDP;']
         for i, vs in enumerate(self.enums):
             out.append('typedef enum { %s } TE%d;' % (', '.join('T_E%d_M%d = %s' % (i, j, clit(v)) for j, v in enumerate(vs)), i))
         for i, (kind, fields) in enumerate(self.decls):
@@ -199,7 +209,7 @@ class Gen(object):
         k = t[0]
         if k == 'basic':
             return '(basic %s%%N)' % cstr(BASIC[t[1]][0])
-        if k in ('ptr', 'callback'):
+        if k in ('ptr', 'callback', 'handle'):
             return 'pointer'
         if k == 'enum':
             return '(TEnum %s)' % clist(['(%d)' % v for v in self.enums[t[1]]])
